@@ -27,6 +27,8 @@ type FileStorage struct {
 
 const (
 	defaultLockFile = "/tmp/dc4bc_storage_lock"
+	// maxLineSize is the longest line (with its newline) the scanners below accept
+	maxLineSize = 1024 * 1024
 )
 
 func countLines(r io.Reader) uint64 {
@@ -35,7 +37,7 @@ func countLines(r io.Reader) uint64 {
 	// count lines with the same limits as GetMessages reads them, otherwise
 	// counting stops at the first line longer than the default 64 KiB token size
 	buf := make([]byte, 0, 64*1024)
-	fileScanner.Buffer(buf, 1024*1024)
+	fileScanner.Buffer(buf, maxLineSize)
 
 	for fileScanner.Scan() {
 		count++
@@ -87,6 +89,11 @@ func (fs *FileStorage) send(m storage.Message) (storage.Message, error) {
 	if data, err = json.Marshal(m); err != nil {
 		return m, fmt.Errorf("failed to marshal a message %v: %w", m, err)
 	}
+	// a line the readers cannot take (their scanner stops at maxLineSize) would make the whole
+	// log unreadable and every later offset wrong
+	if len(data)+1 > maxLineSize {
+		return m, fmt.Errorf("message is too long for the board: %d bytes, at most %d", len(data)+1, maxLineSize)
+	}
 
 	if _, err = fmt.Fprintln(fs.dataFile, string(data)); err != nil {
 		return m, fmt.Errorf("failed to write a message to a data file:  %w", err)
@@ -123,7 +130,7 @@ func (fs *FileStorage) GetMessages(offset uint64) ([]storage.Message, error) {
 	defer reader.Close()
 	scanner := bufio.NewScanner(reader)
 	buf := make([]byte, 0, 64*1024)
-	scanner.Buffer(buf, 1024*1024)
+	scanner.Buffer(buf, maxLineSize)
 	for scanner.Scan() {
 		if offset > 0 {
 			offset--
